@@ -1,4 +1,4 @@
-\* C18 thorough (replay 1; sampled-trace filter on): 1 thread, <= 2 spans, <= 3 frames, 1 task, nesting <= 3, headers sampled/unsampled (same trace), other trace, invalid (span id only), all forms; every transition replayed.
+\* C18 thorough (replay 1; sampled-trace filter on): 1 thread, <= 2 spans, <= 3 frames, 1 task, nesting <= 3, headers sampled, unsampled other trace, invalid with sampled flag (no ids, span id only, trace id only), all forms; every transition replayed.
 SPECIFICATION Spec
 CONSTANTS
     NThreads = 1
@@ -6,7 +6,7 @@ CONSTANTS
     MaxFrames = 3
     MaxTasks = 1
     MaxDepth = 3
-    Headers <- MC_Headers4
+    Headers <- MC_HeadersInvS
     InSampled = TRUE
     SnapshotOnPush = TRUE
     WithLazy = TRUE
